@@ -1595,6 +1595,18 @@ func (ex *Executor) rangeOp(st *State, f *Frame, in *ssa.Range) {
 		if m.Obj != nil {
 			ex.logAccess(st, Ptr{Obj: m.Obj}, false)
 		}
+		if st.MapOrder && len(it.Keys) >= 2 {
+			// iteration order of a built-in map is unspecified: fork on one alternative order (the reverse)
+			ch := smt.Var(fmt.Sprintf("nd%d_%s", len(st.ND), "maprev"), smt.Bool)
+			rev := ex.branch(st, ch)
+			st.ND = append(st.ND[:len(st.ND):len(st.ND)], NDRec{Kind: "ext-bool", Tag: "map range reversed", T: ch})
+			if rev {
+				for i, j := 0, len(it.Keys)-1; i < j; i, j = i+1, j-1 {
+					it.Keys[i], it.Keys[j] = it.Keys[j], it.Keys[i]
+					it.Vals[i], it.Vals[j] = it.Vals[j], it.Vals[i]
+				}
+			}
+		}
 		ex.setReg(f, in, it)
 	case *smt.Term:
 		if !m.IsConst() {
